@@ -460,24 +460,29 @@ Definition gamma_int (n : Z) : option Z :=
   if 0 <? n then Some (fact_nat (Z.to_nat (n - 1))) else None.
 
 (* gamma_multiple_2(num/2), num odd: returns c with result c * sqrt(pi).
-   `int j = 1; for (int i = 3; i < 2*k; i += 2) j = j * i;`  -- 32-bit signed arithmetic: the
-   product wraps (observed behaviour of the compiled library) *)
+   `integer_class j(1); for (long i = 3; i < 2*k; i += 2) j = j * integer_class(i);`
+   (the product was a 32-bit int before commit "gamma_multiple_2 overflow"; [jmul] keeps that
+   arithmetic for the record) *)
 Definition wrap32 (z : Z) : Z := (z + 2147483648) mod 4294967296 - 2147483648.
 Definition jmul (j i : Z) : Z := wrap32 (j * i).
-Fixpoint dfact_loop (fuel : nat) (i bound j : Z) : Z :=
-  match fuel with
-  | O => j
-  | S f => if i <? bound then dfact_loop f (i + 2) bound (jmul j i) else j
-  end.
-Definition gamma_half (num : Z) : Q :=
-  let n0 := Z.abs num / 2 in
-  let pos := 0 <? num in
-  let n := if pos then n0 else n0 + 1 in
-  let c0 := if pos then 1 else if Z.even n then 1 else -1 in
-  let j := dfact_loop (Z.to_nat n) 3 (2 * n) 1 in
-  let coeff := c0 * j in
-  if pos then Qred ((coeff # 1) / inject_Z (2 ^ n))
-  else Qred (inject_Z (2 ^ n) / (coeff # 1)).
+Section GammaHalf.
+  Variable mul : Z -> Z -> Z.       (* the arithmetic of `j = j * i` *)
+  Fixpoint dfact_loop (fuel : nat) (i bound j : Z) : Z :=
+    match fuel with
+    | O => j
+    | S f => if i <? bound then dfact_loop f (i + 2) bound (mul j i) else j
+    end.
+  Definition gamma_half_with (num : Z) : Q :=
+    let n0 := Z.abs num / 2 in
+    let pos := 0 <? num in
+    let n := if pos then n0 else n0 + 1 in
+    let c0 := if pos then 1 else if Z.even n then 1 else -1 in
+    let j := dfact_loop (Z.to_nat n) 3 (2 * n) 1 in
+    let coeff := c0 * j in
+    if pos then Qred ((coeff # 1) / inject_Z (2 ^ n))
+    else Qred (inject_Z (2 ^ n) / (coeff # 1)).
+End GammaHalf.
+Definition gamma_half (num : Z) : Q := gamma_half_with Z.mul num.
 
 (* primes by trial division (specification-level stand-in for the sieve iterator, C33) *)
 Fixpoint no_divisor (fuel : nat) (d p : Z) : bool :=
@@ -488,10 +493,14 @@ Fixpoint no_divisor (fuel : nat) (d p : Z) : bool :=
 Definition is_prime (p : Z) : bool := (2 <=? p) && no_divisor (Z.to_nat p) 2 p.
 Definition primes_upto (n : Z) : list Z :=
   filter is_prime (map (fun k => Z.of_nat k) (seq 2 (Z.to_nat (n - 1)))).
-(* primepi(Integer n): 0 for a negative n; otherwise the count of primes up to
-   (unsigned int) n  -- the cast keeps the low 32 bits *)
-Definition primepi_int (n : Z) : Z :=
-  if n <? 0 then 0 else Z.of_nat (length (primes_upto (n mod 4294967296))).
+(* primepi(Integer n): 0 for a negative n; as_uint() throws above 2^64 - 1 (SymEngineException),
+   the constructor throws NotImplementedError above UINT_MAX; otherwise the count of primes up to n *)
+Inductive ppres := PPOk (k : Z) | PPTooLarge | PPOverflow.
+Definition primepi_int (n : Z) : ppres :=
+  if n <? 0 then PPOk 0
+  else if 18446744073709551615 <? n then PPOverflow
+  else if 4294967295 <? n then PPTooLarge
+  else PPOk (Z.of_nat (length (primes_upto n))).
 (* primorial(Integer n), n > 0: product of the primes up to n; an exception otherwise *)
 Definition primorial_int (n : Z) : option Z :=
   if 0 <? n then Some (fold_left Z.mul (primes_upto n) 1) else None.
